@@ -42,7 +42,28 @@ class Dumper:
         self.term_ctx = []  # (term, ((index var, length term), ...)) — the element-index ranges the term is stated under
         self.ctx = []
 
+    def defs(self):
+        """named constants introduced by the engine (quotients, ceilings) -> their defining applications"""
+        if getattr(self, "_defs", None) is None:
+            from .ops import FDIV
+
+            pairs = []
+            for F, a, b in getattr(self.it.path, "_fdiv_memo", {}).values():
+                pairs.append((F, FDIV(a, b)))
+            CEIL = z3.Function("ceil_div", z3.IntSort(), z3.IntSort(), z3.IntSort())
+            for K, a, b in getattr(self.it.path, "_ceil_memo", {}).values():
+                pairs.append((K, CEIL(a, b)))
+            self._defs = pairs
+        return self._defs
+
     def term(self, t):
+        d = self.defs()
+        if d:
+            for _ in range(3):  # definitions may mention earlier constants
+                t2 = z3.substitute(t, *d)
+                if z3.eq(t2, t):
+                    break
+                t = t2
         t = z3.simplify(t)
         self.terms.append(t)
         self.term_ctx.append((t, tuple(self.ctx)))
